@@ -765,6 +765,26 @@ fn parse_case(ops: &[String]) -> Option<(Scenario, Sched, u64, Vec<String>)> {
 }
 
 impl C20 {
+    /// run the scenario once under (sched, seed) and embed the observed lock trace in the case
+    fn make_case(&self, sc: &Scenario, sched: Sched, seed: u64) -> Vec<String> {
+        let sc = sc.clone();
+        let mut ops = scenario_lines(&sc);
+        ops.push(format!("run {} {}", if sched == Sched::Pct { "pct" } else { "random" }, seed));
+        let r = run_scenario(&sc, sched, seed, None);
+        if std::env::var("VERIF_C20_DET").is_ok() {
+            let r2 = run_scenario(&sc, sched, seed, None);
+            if r2.trace != r.trace {
+                let k = r.trace.iter().zip(r2.trace.iter()).position(|(a, b)| a != b).unwrap_or(0);
+                eprintln!("NONDET {:?} {:?} seed {} at {}: {:?} vs {:?} (len {} {}) completed {} {}", sc, sched, seed, k, r.trace.get(k), r2.trace.get(k), r.trace.len(), r2.trace.len(), r.completed, r2.completed);
+            }
+        }
+        for e in &r.trace {
+            ops.push(e.line());
+        }
+        ops.push("end".into());
+        self.run_cache.borrow_mut().insert(ops.join("\n"), r);
+        ops
+    }
     fn serial_outcomes(&self, sc: &Scenario) -> Vec<(Vec<(usize, usize, String)>, String, bool)> {
         let key = scenario_lines(sc).join("\n");
         if let Some(v) = self.serial_cache.borrow().get(&key) {
@@ -929,22 +949,7 @@ impl Group for C20 {
         };
         let sched = if rng.chance(1, 2) { Sched::Pct } else { Sched::Random };
         let seed = rng.next() >> 16;
-        let mut ops = scenario_lines(&sc);
-        ops.push(format!("run {} {}", if sched == Sched::Pct { "pct" } else { "random" }, seed));
-        let r = run_scenario(&sc, sched, seed, None);
-        if std::env::var("VERIF_C20_DET").is_ok() {
-            let r2 = run_scenario(&sc, sched, seed, None);
-            if r2.trace != r.trace {
-                let k = r.trace.iter().zip(r2.trace.iter()).position(|(a, b)| a != b).unwrap_or(0);
-                eprintln!("NONDET {:?} {:?} seed {} at {}: {:?} vs {:?} (len {} {}) completed {} {}", sc, sched, seed, k, r.trace.get(k), r2.trace.get(k), r.trace.len(), r2.trace.len(), r.completed, r2.completed);
-            }
-        }
-        for e in &r.trace {
-            ops.push(e.line());
-        }
-        ops.push("end".into());
-        self.run_cache.borrow_mut().insert(ops.join("\n"), r);
-        ops
+        self.make_case(&sc, sched, seed)
     }
     fn exec_case(&self, ops: &[String]) -> CaseOut {
         let (sc, sched, seed, evs) = match parse_case(ops) {
@@ -965,7 +970,22 @@ impl Group for C20 {
         }
     }
     fn corpus(&self) -> Vec<Vec<String>> {
-        vec![]
+        // targeted scenarios for the known lock-order cycles (finding F11) and for same-channel
+        // read-modify-write races, a few schedules each
+        let scs = vec![
+            Scenario { nchan: 1, stub: false, threads: vec![vec![Req::Forget(0)], vec![Req::Validate(0)]] },
+            Scenario { nchan: 2, stub: true, threads: vec![vec![Req::Forget(1)], vec![Req::Balance]] },
+            Scenario { nchan: 1, stub: false, threads: vec![vec![Req::Heartbeat], vec![Req::NewChan(7)]] },
+            Scenario { nchan: 1, stub: false, threads: vec![vec![Req::Validate(0)], vec![Req::SignCp(0)], vec![Req::SignHolder(0)]] },
+            Scenario { nchan: 2, stub: false, threads: vec![vec![Req::Validate(0), Req::Keysend(1)], vec![Req::Validate(1), Req::Onchain]] },
+        ];
+        let mut out = Vec::new();
+        for sc in &scs {
+            for seed in 1..=6u64 {
+                out.push(self.make_case(sc, if seed % 2 == 0 { Sched::Pct } else { Sched::Random }, seed * 7919));
+            }
+        }
+        out
     }
 }
 
